@@ -17,6 +17,7 @@ import os
 import random as _random
 import re
 import shutil
+import sys
 import tempfile
 
 import numpy as np
@@ -701,8 +702,14 @@ class C20(World):
 
         def call():
             # (third-party readers print their complaints: keep them out of the check's output)
-            with contextlib.redirect_stdout(_DEVNULL), contextlib.redirect_stderr(_DEVNULL):
+            # (restored by hand, in this file: contextlib lives in the standard library, whose lines are monitored - once the step
+            #  budget is exhausted its __exit__ would be interrupted too and the streams would stay redirected)
+            old = (sys.stdout, sys.stderr)
+            sys.stdout = sys.stderr = _DEVNULL
+            try:
                 out, fobj = fw.load_payload(files, main, ft, route=route, transport=transport, scratch=scratch, fault=stream_fault)
+            finally:
+                sys.stdout, sys.stderr = old
             holder["fobj"] = fobj
             return out
 
